@@ -105,10 +105,9 @@ func NewGraphQLMiddleware(logger logging.Logger, remote *config.Backend) Middlew
 					for k, vs := range req.Query {
 						query[k] = append([]string(nil), vs...)
 					}
+					// the operation's parameters replace client query strings of the same name
 					for k, vs := range q {
-						for _, v := range vs {
-							query.Add(k, v)
-						}
+						query[k] = vs
 					}
 					req.Query = query
 				} else {
